@@ -610,12 +610,16 @@ class World:
         """Everything C09 says must never change for a relation already handed out
         (payload marks of marker relations are excluded: attaching a payload is allowed)."""
         tree = proto.show_rel(r, NoSerialsNoMarks(), self.engine_names)
+        # a payload on a Select marker IS part of the fingerprint: nothing in these programs may attach one (the
+        # Processor attaches to Materialization / new Transfer nodes, never to the Select around them), and a Select that
+        # gains a payload compiles to different SQL afterwards
+        n_select_payloads = tree.count("(select+")
         tree = tree.replace("(select+", "(select")
         try:
             h = str(hash(r))
         except TypeError:
             h = "unhashable"
-        parts = [tree, proto.show_meta(r, self.engine_names), str(r), h]
+        parts = [tree, proto.show_meta(r, self.engine_names), str(r), h, f"select-payloads:{n_select_payloads}"]
         # leaf payload contents
         def leaves(x):
             from lsst.daf.relation import BinaryOperationRelation, MarkerRelation
